@@ -105,9 +105,44 @@ static int structured(cat_var_type t, int ds)
         return 0;
 }
 
+/* The working buffer doubles as the 2-bit-per-command match table while the name is typed.  An empty
+ * argument text must still be an empty text: every pattern of exact / prefix / non-matching commands in
+ * the first eight table slots (12 commands), first variable of every type. */
+static int family_residue(void)
+{
+        int idx = 0;
+        static const cat_var_type VT[5] = {CAT_VAR_BUF_HEX, CAT_VAR_BUF_STRING, CAT_VAR_UINT_DEC, CAT_VAR_INT_DEC, CAT_VAR_NUM_HEX};
+        for (int exact = 0; exact < 8; exact++)
+                for (int mask = 0; mask < 256; mask++, idx++) {
+                        if (mask & (1 << exact)) continue;
+                        if (idx % SW.nshards != SW.shard) continue;
+                        for (int vt = 0; vt < 5; vt++) {
+                                struct wcmd *c = sw_table(12);
+                                int pn = 0;
+                                for (int i = 0; i < 12; i++) {
+                                        if (i == exact) strcpy(c[i].name, "+P");
+                                        else if (i < 8 && (mask >> i & 1)) snprintf(c[i].name, sizeof c[i].name, "+P%c", 'A' + pn++);
+                                        else snprintf(c[i].name, sizeof c[i].name, "Z%c", 'A' + i);
+                                        c[i].hmask = HM_W;
+                                        c[i].nvar = 1;
+                                        c[i].var[0] = (struct wvar){.type = VT[vt], .size = 4, .access = CAT_VAR_ACCESS_READ_WRITE, .wcb = 1};
+                                }
+                                sw_caps(16, (mask ^ exact) & 1);
+                                W.line_max = 40; W.mon = P_ALL;
+                                world_build();
+                                snprintf(SW.extra, sizeof SW.extra, "family=residue exact-slot=%d prefix-mask=0x%02x first-variable-type=%d", exact, mask, vt);
+                                static const uint8_t l1[] = "AT+P=\n", l2[] = "AT+P=\r\n";
+                                SW.cases += 2;
+                                if (sw_line(l1, 6) || sw_line(l2, 7)) return 1;
+                        }
+                }
+        return 0;
+}
+
 int main(int argc, char **argv)
 {
         sw_init(argc, argv, "buffers");
+        if (!strcmp(sw_args(argc, argv, "--family", "texts"), "residue")) { family_residue(); char tg[64]; snprintf(tg, sizeof tg, "buffers-residue-%d", SW.shard); return sw_finish(tg); }
         int lite = sw_argi(argc, argv, "--lite", 0);
         g_lite = lite;
         static const int DS[] = {1, 2, 3, 4, 5, 6, 7, 8, 16, 63, 64};
